@@ -92,7 +92,15 @@ structure Mode where
   /-- pandas copy-on-write (always on from pandas 3): nothing written through a shallow copy reaches the original.
       Without it a column *added* to the view still stays local, but values overwritten in place are shared. -/
   cow : Bool
-  /-- `_start`: the objects nested in cells of that frame are deep-copied as well -/
+  /-- `_start`: the objects nested in cells of that frame are deep-copied as well.  Precisely what `_own_frame` does (and what
+      the source flag `managerCellsCopied` recognises, text for text): for every column of dtype `object` that holds at least one
+      `list`, `dict` or `set` cell, every cell of that column is replaced by its `copy.deepcopy`.  So `N`, in every theorem
+      that uses this flag, is the state of the objects nested in cells **of columns that hold a list, dict or set cell** —
+      all that demeter's own loaders produce (the Deribit `asks` / `bids` lists of `[price, amount]`).  A column whose mutable
+      cells are all of other classes (tuples holding lists, numpy arrays, deques, user objects) is handed out uncopied: for
+      a frame with such a column the flag to read the theorems with is `cellsCopied := false`
+      (`C19_order_list_copy_partial` with its hypothesis `CellsIntact`; witness `C19_fails_when_nested_cells_are_shared`).
+      The harness measures the boundary on `_own_frame` itself on every run (`own_frame_probe`, one column per class). -/
   cellsCopied : Bool
   /-- deribit `get_new_order_list` decrements a deep copy of the order list it is given -/
   orderListCopied : Bool
@@ -356,6 +364,15 @@ structure GStrat (G M C V N P O : Type) where
 /-- a backtest that neither reads nor writes the process state -/
 def FStrat.stateless {G M C V N P O : Type} (s : FStrat M C V N P O) : GStrat G M C V N P O :=
   { strat := fun _ => s, leaves := fun g _ _ => g }
+
+/-- the part of the process state the framework itself writes: `Actuator.__get_snapshot` stores the status of every market
+    into `snapshot.market_status` on every bar.  If that dict is a class-level default of `Snapshot` it is one object for
+    the whole process and what the backtest's last bar published stays behind (`perInstance = false`; `publish` = the
+    state with those statuses in it); as a per-instance field it dies with the snapshot.  The flag is read from the
+    source (`Gen.snapshotHoldsNoSharedObject`). -/
+def GStrat.underActuator {G M C V N P O : Type} (perInstance : Bool) (publish : G → M → Data C V N P → G)
+    (s : GStrat G M C V N P O) : GStrat G M C V N P O :=
+  { strat := s.strat, leaves := fun g m d => if perInstance then s.leaves g m d else publish (s.leaves g m d) m d }
 
 /-- `_start` inside a process whose state is `g`: the state the process is left in, then what `startF` says -/
 def startG {G M C V N P O : Type} (env : Env M P) (md : Mode) (s : GStrat G M C V N P O) (g : G) (cfg : M) (d : Data C V N P) :
